@@ -193,6 +193,70 @@ def summarize_state(prog, reg, n: int, eof: bool, stop: bool):
     return out
 
 
+def dispatch_summary(prog, reg, states):
+    """Symbolically execute the dispatcher Parser.match_token for every concrete state value (and two values that are not
+    states): it must do nothing but call match_token_at_<state>(token, context) once and return its result, and raise for
+    an unknown state.  Returns a list of problems (empty = the dispatcher is the plain table dispatch)."""
+    qual = "gherkin.parser.Parser.match_token"
+    fi = prog.func(qual)
+    problems = []
+    probe = list(states) + [max(states) + 57, -1]
+    for k in probe:
+        ex = Executor(prog, reg, qual)
+        ex.prune = True
+        st = State()
+        parser = st.alloc(ObjCell("Parser", {"stop_at_first_error": VBool(z3.Bool("stop_mode")),
+                                             "ast_builder": st.alloc(ObjCell("AstBuilder", {}, "input"))}, "input"))
+        token = st.alloc(ObjCell("Token", {}, "input"))
+        context = st.alloc(ObjCell("ParserContext", {}, "input"))
+        st.env = {"self": parser, "token": token, "context": context, "state": VInt(z3.IntVal(k))}
+        st.ghost["$cls"] = "Parser"
+        hooks = {}
+
+        def ev(s_, e):
+            s_.trace = s_.trace + [e]
+
+        for n in states:
+            def mk(n):
+                def hook(ex_, s_, f, env, node):
+                    if env.get("token") is not token or env.get("context") is not context:
+                        ev(s_, ("dispatch-with-other-arguments", n))
+                    else:
+                        ev(s_, ("dispatch", n))
+                    return [(s_, VInt(z3.Int(f"next_state_from_{n}")))]
+                return hook
+            hooks[f"gherkin.parser.Parser.match_token_at_{n}"] = mk(n)
+        for name in [f"match_{x}" for x in KINDS] + ["build", "start_rule", "end_rule", "add_error", "read_token",
+                                                      "lookahead_0", "lookahead_1"]:
+            def mk2(name):
+                def hook(ex_, s_, f, env, node):
+                    ev(s_, ("side-call", name))
+                    return [(s_, VBool(z3.Bool("r_" + name)))]
+                return hook
+            hooks["gherkin.parser.Parser." + name] = mk2(name)
+        old_hooks = reg.hooks
+        reg.hooks = hooks
+        try:
+            results = ex.exec_block(st, fi.node.body)
+        finally:
+            reg.hooks = old_hooks
+        bad_ob = [o for o in ex.obligations if not z3.is_true(z3.simplify(o.goal))]
+        if bad_ob:
+            raise EngineUnsupported(f"dispatcher has conditional safety obligations: {[o.name for o in bad_ob][:2]}")
+        for s_, oc in results:
+            if k in states:
+                want = [("dispatch", k)]
+                got = [e for e in s_.trace]
+                if got != want:
+                    problems.append(f"state {k}: dispatcher does {got} instead of one call of match_token_at_{k}(token, context)")
+                elif oc.kind != Outcome.RETURN or not z3.eq(z3.simplify(oc.value.t), z3.Int(f"next_state_from_{k}")):
+                    problems.append(f"state {k}: dispatcher does not return the state function's result")
+            else:
+                if oc.kind != Outcome.RAISE or s_.trace:
+                    problems.append(f"unknown state {k}: dispatcher does {s_.trace or 'not raise'}")
+    return problems
+
+
 def python_table(prog, reg):
     """All state functions, 4 configurations each.  Returns {state: {(eof, stop): [PathSummary]}} and the state list."""
     states = []
